@@ -25,9 +25,9 @@ type modelRun struct {
 	Totals []*big.Int
 	// ModelTotals: total value of the reference model (native model + reference EVM world when present) per height
 	ModelTotals []*big.Int
-	Minted []*big.Int
-	Burnt  []*big.Int
-	Folded map[string]int64 // the validator set obtained by folding all EndBlock updates onto the genesis set
+	Minted      []*big.Int
+	Burnt       []*big.Int
+	Folded      map[string]int64 // the validator set obtained by folding all EndBlock updates onto the genesis set
 	// Announced: validators that appeared in at least one update list (the others are in the set only because genesis put them there)
 	Announced map[string]bool
 }
